@@ -9,4 +9,5 @@ CFG = dict(
     spec_what="an output ordering is not a strict total order on the things it orders / repeated runs produced different bytes",
     trusted_base=[],
     assumptions=[],
+    allowed_axioms=["float", "PrimFloat.eqb", "add"],
 )
